@@ -126,7 +126,7 @@ partial def parseInstrs : Nat → Toks → List Instr → Option (List Instr)
 def parseProg (ctx : List (String × V)) (toks : Toks) : Option (St × Array Instr) :=
   match toks with
   | "C" :: "@" :: "F" :: f :: "N" :: n :: r => match n.toNat? with
-    | some n => (parseInstrs n r []).map (fun is => ({ ctx := ctx, customFormatter := f == "1" }, is.toArray))
+    | some n => (parseInstrs n r []).map (fun is => ({ ctx := ctx, formatter := f.toNat?.getD 0 }, is.toArray))
     | none => none
   | _ => none
 
@@ -136,7 +136,7 @@ def parseCtx (toks : Toks) : Option (List (String × V)) :=
   | _ => none
 
 def showRes : Except Err St → String
-  | .ok s => "ok:" ++ hexOfString s.output
+  | .ok s => "ok:" ++ hexOfString s.observed
   | .error .undefinedError => "err:UndefinedError"
   | .error .invalidOperation => "err:InvalidOperation"
   | .error (.other k) => "err:" ++ k
@@ -161,6 +161,12 @@ def showChk : Except Err Unit → String
   | .error .undefinedError => "err"
   | .error _ => "model-error"
 
+def showFmt : Except Err Bool → String
+  | .ok true => "formatter"
+  | .ok false => "skipped"
+  | .error .undefinedError => "err"
+  | .error _ => "model-error"
+
 /-- the helper matrix as interpreted from the generated tables (recorded in the evidence) -/
 def matrixLines : List String :=
   let row (name : String) (f : Mode → String) := name ++ "\t" ++ "\t".intercalate (Mode.all.map f)
@@ -174,7 +180,9 @@ def matrixLines : List String :=
     row "assert_value_not_undefined(silent)" (fun m => showChk (assertNotUndef m .silent)),
     row "emit(undefined)" (fun m => showChk (emitChk m .undef)),
     row "emit(silent)" (fun m => showChk (emitChk m .silent)),
-    row "env.format(undefined)" (fun m => showChk (envFormatChk m .undef)),
+    row "env.format(undefined)" (fun m => showFmt (envFormat m .undef)),
+    row "env.format(silent)" (fun m => showFmt (envFormat m .silent)),
+    row "env.format(defined)" (fun m => showFmt (envFormat m .defined)),
     row "slice(undefined)" (fun m => showChk (sliceChk m .undef)),
     row "slice(silent)" (fun m => showChk (sliceChk m .silent)) ]
 
